@@ -28,6 +28,11 @@ def tr_num(n):
         return '.hopeful'
     if _call_path(n) == 'E.seatsLeftToFill':
         return '.seatsLeft'
+    if isinstance(n, ast.Attribute) and isinstance(n.value, ast.Name) and n.value.id == 'self' and n.attr == 'nSeats':
+        return '.nSeats'
+    if isinstance(n, ast.Call) and isinstance(n.func, ast.Name) and n.func.id == 'len' and len(n.args) == 1 \
+            and _call_path(n.args[0]) == 'self.C.elected':
+        return '.elected'
     if isinstance(n, ast.Constant) and isinstance(n.value, int) and not isinstance(n.value, bool):
         return '(.lit %d)' % n.value
     if isinstance(n, ast.BinOp) and isinstance(n.op, ast.Sub):
@@ -115,6 +120,16 @@ def guards(repo):
         if len(hits) != 1:
             raise TranslationError('%s: %d assignments to maxDefeat' % (path, len(hits)))
         out[lean + 'MaxDefeat'] = (tr_num(hits[0].value), 'C01.maxDefeatProg', 'NEx')
+    # election.py: seatsLeftToFill()
+    path = os.path.join(repo, 'droop', 'election.py')
+    tree = ast.parse(open(path).read(), path)
+    fs = [n for n in ast.walk(tree) if isinstance(n, ast.FunctionDef) and n.name == 'seatsLeftToFill']
+    if len(fs) != 1:
+        raise TranslationError('%s: %d definitions of seatsLeftToFill' % (path, len(fs)))
+    body = [st for st in fs[0].body if not (isinstance(st, ast.Expr) and isinstance(st.value, ast.Constant))]
+    if not (len(body) == 1 and isinstance(body[0], ast.Return) and body[0].value is not None):
+        raise TranslationError('%s: seatsLeftToFill() is not a single return' % path)
+    out['seatsLeft'] = (tr_num(body[0].value), 'C01.seatsLeftProg', 'NEx')
     return out
 
 
